@@ -737,6 +737,13 @@ func genPLarge(r *rng, id string, cnt counters, emit func(line, out string)) (*p
 			default:
 				sp = segs[0]
 			}
+		} else if longOff && r.chance(12) {
+			// period >= 64 KiB, three repetitions: a match longer than its own offset
+			sp = fmt.Sprintf("#%d:%d", r.intn(100000), r.rangeIn(65536, 70000))
+			segs = append(segs, sp)
+			for rep := 0; rep < 2 && !e.dead; rep++ {
+				e.step("write " + sp)
+			}
 		} else if longOff && len(segs) >= 2 && r.chance(60) {
 			sp = segs[max(0, len(segs)-r.rangeIn(2, 3))] // the segment before the previous one: distance > 64 KiB
 		} else if longOff && r.chance(60) {
@@ -928,11 +935,11 @@ func genPLargeWrap(r *rng, id string, cnt counters, emit func(line, out string))
 // list-based suffix sort of the model needs about a second at this size).
 func genPMidSA(r *rng, id string, cnt counters, emit func(line, out string)) *pExec {
 	c := pcfg{kind: "GSAP", f: map[string]int{}}
-	bs := r.rangeIn(2400, 3200)
+	bs := r.rangeIn(3000, 4200)
 	c.f["BufferSize"] = bs
 	c.f["WindowSize"] = r.pick(bs, bs+10, bs)
 	c.f["ShrinkSize"] = r.pick(bs/2, 100, bs-1)
-	c.f["BlockSize"] = r.pick(bs, 1500, 700, 2100)
+	c.f["BlockSize"] = r.pick(bs, bs, bs, 2100) // the long copy has to fit into one block
 	c.f["MinMatchLen"] = r.pick(3, 2, 4)
 	e, st := newPExec(c, cnt)
 	emit(e.header(id), fmt.Sprintf("S %s %s", id, st))
@@ -951,22 +958,30 @@ func genPMidSA(r *rng, id string, cnt counters, emit func(line, out string)) *pE
 	data = append(data, x...)
 	data = append(data, mixBytes(r.intn(1<<20), r.rangeIn(3, 40))...)
 	a := r.intn(30)
-	data = append(data, x[a:a+r.rangeIn(1030, len(x)-a)]...) // a copy longer than 1 KiB
-	data = append(data, byte(r.intn(256)))
-	for len(data) < bs-200 {
-		// further copies that start at odd places of the first segment, e.g. just behind a 1 KiB boundary
-		s0 := r.pick(1024, 1025, 1026, 1023, r.intn(len(x)-40), 2*1025-len(x))
-		if s0 < 0 || s0 > len(x)-20 {
-			s0 = r.intn(len(x) - 40)
+	cp := len(data) // start of the long copy
+	cl := r.rangeIn(1030, len(x)-a)
+	data = append(data, x[a:a+cl]...) // a copy longer than 1 KiB: one match
+	zm := len(data)
+	data = append(data, mixBytes(r.intn(1<<20), 24)...) // unique continuation behind the copy
+	for len(data) < bs-400 {
+		// later copies whose unique longest source starts INSIDE the long match (just behind a 1 KiB
+		// boundary of it, …) and runs over its end into the continuation — the positions covered by a
+		// match must all have been entered into the search set
+		s0 := r.pick(1025, 1025, 1024, 1026, 1023, 1027, 1, 2, r.intn(cl))
+		if s0 >= cl {
+			s0 = cl - 1
 		}
-		l := r.rangeIn(5, min(90, len(x)-s0))
-		data = append(data, x[s0:s0+l]...)
+		seg := append([]byte{}, data[cp+s0:zm+r.rangeIn(3, 20)]...)
+		if len(seg) > 330 {
+			seg = seg[len(seg)-330:]
+		}
+		data = append(data, seg...)
 		data = append(data, byte(r.intn(256)))
 	}
 	if len(data) > bs {
 		data = data[:bs]
 	}
-	cut := r.pick(len(data), len(data), r.rangeIn(1, len(data)))
+	cut := r.pick(len(data), len(data), len(data), r.rangeIn(1, len(data)))
 	do("write " + hx(data[:cut]))
 	fl := r.pick(0, 0, 1)
 	for g := 0; g < 12 && !e.dead && e.unparsed() > 0; g++ {
@@ -1015,12 +1030,14 @@ func genPOsapFar(r *rng, id string, cnt counters, emit func(line, out string)) *
 	var data []byte
 	data = append(data, far...)
 	data = append(data, filler(hist)...)
-	data = append(data, []byte("XY.UV.KLM.")...) // near: the 2- and 3-byte prefixes of the far n-grams
-	data = append(data, filler(r.rangeIn(0, 30))...)
-	// make the last block start at a block boundary: pad so that len(data) is a multiple of 128 KiB
-	for len(data)%(128<<10) != 0 {
+	// near: the 2- and 3-byte prefixes of the far n-grams, at most a few dozen bytes in front of the last
+	// block (a 2-byte match only pays off below an offset of 2048); the last block starts at a block
+	// boundary (multiple of 128 KiB), so pad in FRONT of the near part
+	near := append([]byte("XY.UV.KLM."), filler(r.rangeIn(0, 30))...)
+	for (len(data)+len(near))%(128<<10) != 0 {
 		data = append(data, byte('a'+r.intn(6)))
 	}
+	data = append(data, near...)
 	last := append([]byte("XYZ"), filler(r.rangeIn(0, 3))...)
 	last = append(last, []byte("UVW")...)
 	last = append(last, filler(r.rangeIn(0, 3))...)
